@@ -1,4 +1,4 @@
-(* C14/C10: the text State.serialize() writes is read back by the library's own reader (Model/Tokenizer, C11) as
+(* C14/C10: the text State.serialize_in_order() writes is read back by the library's own reader (Model/Tokenizer, C11) as
    the token tree of the state, and the spec's reading of that tree is the state. *)
 From Coq Require Import List Ascii String Bool Arith Lia PrimFloat.
 From Verif Require Import Base.Result Base.Str Base.Sexp Base.PyDict Base.Float Model.Tokenizer Spec.Layout
@@ -114,7 +114,7 @@ Proof.
   rewrite flatten_valued_sexp. cbn [app]. rewrite <- app_assoc. reflexivity.
 Qed.
 
-(* ---------- State.serialize ---------- *)
+(* ---------- State.serialize_in_order ---------- *)
 Section Serialize.
   Variable num_text : float -> string.
 
@@ -137,11 +137,11 @@ Section Serialize.
   Qed.
 
   Lemma s2t_serialize s :
-    s2t (serialize num_text s) =
+    s2t (serialize_in_order num_text s) =
     LP :: s2t (head_tok s) ++ SP :: tjoin (map s2t (fluent_texts num_text s)) ++
     flat_map (fun grp => SP :: tjoin (map s2t (map gp_untyped (snd grp)))) (st_preds s) ++ [RP; LF].
   Proof.
-    unfold serialize, serialize_fluents, serialize_preds, head_tok.
+    unfold serialize_in_order, serialize_fluents, serialize_preds_in_order, head_tok.
     rewrite !s2t_app, s2t_join, s2t_serialize_preds_aux. simpl. rewrite <- ?app_assoc. reflexivity.
   Qed.
 
@@ -187,7 +187,7 @@ Section Serialize.
   (* the text of a state, followed by anything, tokenizes to the tokens of its tree, followed by the rest's tokens *)
   Theorem yields_serialize m s :
     state_ok s = true -> nums_clean s ->
-    yields m (s2t (serialize num_text s)) (flatten (state_sexp s)).
+    yields m (s2t (serialize_in_order num_text s)) (flatten (state_sexp s)).
   Proof.
     unfold state_ok. rewrite andb_true_iff. intros [Hp Hf] Hn rest.
     rewrite s2t_serialize. cbn [app]. rewrite tk_lp.
@@ -229,10 +229,10 @@ Section Serialize.
   Qed.
 
   Theorem parse_serialize m s :
-    state_ok s = true -> nums_clean s -> parse m (s2t (serialize num_text s)) = Ok (state_sexp s).
+    state_ok s = true -> nums_clean s -> parse m (s2t (serialize_in_order num_text s)) = Ok (state_sexp s).
   Proof.
     intros Hs Hn. unfold parse, tokenize.
-    rewrite <- (app_nil_r (s2t (serialize num_text s))). rewrite (yields_serialize m s Hs Hn).
+    rewrite <- (app_nil_r (s2t (serialize_in_order num_text s))). rewrite (yields_serialize m s Hs Hn).
     apply parse_tokens_iff. exists []. split; [reflexivity|apply wf_state_sexp; assumption].
   Qed.
 
@@ -309,7 +309,7 @@ Section Serialize.
   (* C14_serialize, first half: the text reads back as the state *)
   Theorem serialize_reads_back m s :
     state_ok s = true -> nums_clean s -> (forall x, In x (values s) -> num_ok num_text parse_num x) ->
-    exists st, read_text m (serialize num_text s) = Some (st_init s, st) /\ State_same st (den s).
+    exists st, read_text m (serialize_in_order num_text s) = Some (st_init s, st) /\ State_same st (den s).
   Proof.
     intros Hs Hc Hn. destruct (read_back_exists s Hn) as (fl' & R & S).
     exists {| Pddl.facts := den_facts s; fluents := fl' |}. split.
@@ -322,8 +322,8 @@ End Serialize.
 Theorem serialize_injective num_text parse_num m s t :
   state_ok s = true -> state_ok t = true -> nums_clean num_text s -> nums_clean num_text t ->
   nums_ok num_text parse_num (values s ++ values t) ->
-  exists a b, read_text parse_num m (serialize num_text s) = Some (st_init s, a) /\
-              read_text parse_num m (serialize num_text t) = Some (st_init t, b) /\
+  exists a b, read_text parse_num m (serialize_in_order num_text s) = Some (st_init s, a) /\
+              read_text parse_num m (serialize_in_order num_text t) = Some (st_init t, b) /\
               (State_same a b <-> state_eq num_text s t = true).
 Proof.
   intros Hs Ht Cs Ct Hn.
